@@ -38,16 +38,23 @@ def _moved_carriers(op, carriers):
 
 
 def analyse(body):
-    """Returns dict block -> set of carrier locals live just before the block's terminator."""
+    """Returns dict block -> set of carrier locals that may be live just before the block's terminator.
+    The forward analysis runs on the product with the variant tags of hv.absreach (which variant a Result / Option local holds),
+    so `match lock() { Ok(g) => .., Err(_) => .. }` followed by the compiler's "drop unless it was the Ok arm" test is followed
+    arm by arm instead of being merged."""
+    from . import absreach
     carriers = {l for l, loc in enumerate(body.locals) if is_carrier_ty(loc["ty"])}
-    n = len(body.blocks)
-    entry = {b: None for b in range(n)}
-    entry[0] = frozenset()
+    store = absreach.Store(body)
     before_term = {}
-    work = [0]
+    seen = set()
+    work = [(0, frozenset(), ())]
     while work:
-        b = work.pop()
-        st = set(entry[b])
+        b, live, tags = work.pop()
+        key = (b, live, tags)
+        if key in seen:
+            continue
+        seen.add(key)
+        st = set(live)
         for s in body.blocks[b]["stmts"]:
             if "pl" not in s:
                 continue
@@ -64,7 +71,7 @@ def analyse(body):
             pl = s["pl"]
             if pl["l"] in carriers and rv["k"] in ("use", "agg", "cast") and not (rv["k"] == "use" and rv["o"].get("k") == "const"):
                 st.add(pl["l"])
-        before_term[b] = frozenset(st)
+        before_term[b] = before_term.get(b, frozenset()) | frozenset(st)
         t = body.blocks[b]["term"]
         out = set(st)
         k = t["k"] if t else None
@@ -74,13 +81,20 @@ def analyse(body):
             if t["dest"]["l"] in carriers:
                 out.add(t["dest"]["l"])
         elif k == "drop":
-            if t["pl"]["l"] in carriers and not [e for e in t["pl"]["p"] if e[0] == "f"]:
+            proj = t["pl"]["p"]
+            if t["pl"]["l"] in carriers and not [e for e in proj if e[0] == "f"]:
                 out.discard(t["pl"]["l"])
-        for s in body.succs(b):
-            new = frozenset(out) if entry[s] is None else (entry[s] | out)
-            if entry[s] is None or new != entry[s]:
-                entry[s] = frozenset(new)
-                work.append(s)
+            elif t["pl"]["l"] in carriers and any(e[0] == "dc" for e in proj):
+                # dropping the payload of the variant the value is in (`Err(poisoned) => ..`): if that payload is what carries
+                # the guard, nothing guard-bearing is left in the enum value
+                fl = [e for e in proj if e[0] == "f"]
+                if fl and len(fl[-1]) > 2 and GUARD_RX.search(str(fl[-1][2])):
+                    out.discard(t["pl"]["l"])
+        tagd = store.transfer_block(b, dict(tags))
+        # keep only variant / discriminant facts: the lock analysis does not need flags or emptiness, and fewer facts = fewer states
+        for nx, st2 in absreach.refined_succs(store, b, tagd):
+            slim = tuple(sorted((k_, v_) for k_, v_ in st2.items() if k_[0] in ("var", "discr")))
+            work.append((nx, frozenset(out), slim))
     return before_term, carriers
 
 
